@@ -159,7 +159,7 @@ package http2
 //@ ensures layout: len(fr.payload) == 4 && be32(fr.payload, 0) == rst.code
 
 //@ func (*WindowUpdate).Deserialize
-//@ props C05 C08 C16 C17 C02
+//@ props C05 C08 C16 C17 C02 C06 C07
 //@ requires recv: wu != nil && fr != nil
 //@ modifies wu.increment
 //@ ensures size: r0 == nil <==> len(fr.payload) == 4
@@ -508,6 +508,11 @@ package http2
 //@ ensures place: (samearray(r0, dst) && offset(r0) == offset(dst) && cap(r0) == cap(dst)) || fresh(r0)
 //@ # the output is exactly as long as the codes need, rounded up to whole octets (padding < 8 bits)
 //@ ensures size: 8 * (len(r0) - len(dst)) >= spec.hbits(old(src), len(src)) && 8 * (len(r0) - len(dst)) < spec.hbits(old(src), len(src)) + 8
+
+//@ func errors.Is
+//@ trusted
+//@ pure
+//@ ensures refl: err == target && err != nil ==> r0
 
 //@ func errors.New
 //@ trusted
@@ -1860,6 +1865,15 @@ package http2
 //@ # how the loop can end: asked to (nil), a write failed (WriteError), or the server stopped answering pings. None of these
 //@ # is one of the errors that mean "the request did not reach the server" (see retryable)
 //@ ensures kind: r0 == nil || r0 == ErrTimeout || typeis(r0, WriteError)
+//@ # a request that found no stream to open is turned away on its own (it never reached the wire, so it may be retried); the
+//@ # loop - and with it the requests in flight, which get the loop's last error - does not end on that error: wrapped in a
+//@ # WriteError it would still read as "did not reach the server" (WriteError.Is unwraps)
+//@ ghost na = false
+//@ ghost@ret:(*Conn).writeRequest#1 na = ret0 == ErrNotAvailableStreams
+//@ ghost@ret:(*Conn).writeFrame#1 na = false
+//@ ghost@ret:(*Conn).flushPending#1 na = false
+//@ ghost@ret:(*Conn).writePing#1 na = false
+//@ ensures notavail: na ==> r0 == nil || r0 == ErrTimeout
 
 //@ func (*Conn).takeAllReqs
 //@ props C11
